@@ -92,6 +92,7 @@ func (clnt *Clnt) Rpcnb(r *Req) error {
 	}
 
 	SetTag(r.Tc, tag)
+	verifPoint("rpcnb.enter", r)
 	clnt.Lock()
 	if clnt.err != nil {
 		clnt.Unlock()
@@ -108,7 +109,9 @@ func (clnt *Clnt) Rpcnb(r *Req) error {
 	clnt.reqlast = r
 	clnt.Unlock()
 
+	verifPoint("rpcnb.queued", r)
 	clnt.reqout <- r
+	verifPoint("rpcnb.sent", r)
 	return nil
 }
 
@@ -212,6 +215,7 @@ func (clnt *Clnt) recv() {
 				clnt.reqlast = r.prev
 			}
 			clnt.Unlock()
+			verifPoint("crecv.matched", r)
 
 			if r.Tc.Type != r.Rc.Type-1 {
 				if r.Rc.Type != Rerror {
@@ -226,6 +230,7 @@ func (clnt *Clnt) recv() {
 			if r.Done != nil {
 				r.Done <- r
 			}
+			verifPoint("crecv.delivered", clnt)
 
 			pos -= fcsize
 			buf = buf[fcsize:]
@@ -233,7 +238,9 @@ func (clnt *Clnt) recv() {
 	}
 
 closed:
+	verifPoint("crecv.closing", clnt)
 	clnt.done <- true
+	verifPoint("crecv.fanout", clnt)
 
 	/* send error to all pending requests */
 	clnt.Lock()
@@ -249,6 +256,7 @@ closed:
 		if r.Done != nil {
 			r.Done <- r
 		}
+		verifPoint("crecv.delivered", clnt)
 	}
 
 	clnts.Lock()
@@ -277,6 +285,7 @@ func (clnt *Clnt) send() {
 			return
 
 		case req := <-clnt.reqout:
+			verifPoint("csend.dequeued", req)
 			if clnt.Debuglevel > 0 {
 				clnt.logFcall(req.Tc)
 				if clnt.Debuglevel&DbgPrintPackets != 0 {
@@ -305,6 +314,7 @@ func (clnt *Clnt) send() {
 
 				buf = buf[n:]
 			}
+			verifPoint("csend.written", clnt)
 		}
 	}
 }
